@@ -733,7 +733,7 @@ def rule_startxref(ctx, f):
             if F.const_bytes(a):
                 out.add(F.const_bytes(a))
             elif F.op_local(a) is not None:
-                out |= {F.const_bytes(["const", x[1]]) for x in bfl.origins(F.op_local(a)) if x[0] == "const" and isinstance(x[1], dict) and "bytes" in x[1]}
+                out |= {F.const_bytes(["const", x[1]]) for x in bfl.origins(F.op_local(a)) if x[0] == "const" and isinstance(x[1], dict) and F.const_bytes(["const", x[1]]) is not None}
         return out
     sx = [(bi, t) for bi, t in moves if last_seg(F.callee_name(t)) == "seek_substr_back" and "startxref" in needle(t)]
     if not ctx.floor("C02-G5", len(sx), 1, "backward search for `startxref`"):
